@@ -1,6 +1,7 @@
 import EgVerif.Proofs.SpecGuards
 import EgVerif.Gen.FactsC13
 import EgVerif.Proofs.SpecGuardsIR
+import EgVerif.Spec.SpecGuards
 /-!
 # C13 — configs accepted by validation instantiate and serve requests without panicking
 
@@ -623,9 +624,11 @@ theorem handwritten_valid_implies_validateIR (o : Oracle) (j : J) :
     (builderValid o j = true → Gen.FactsC13IR.validateIR_Builder (BSpec.ofJ o j) = true) ∧
     (rlPolicyOK o j = true → tagOK_RLPolicy (RLPolicy.ofJ o j) = true ∧
       Gen.FactsC13IR.validateIR_RLPolicy (RLPolicy.ofJ o j) = true) ∧
-    (mqttProxyValid j = true → panicsIR_MQTTProxy (MqttSpec.ofJ j) = false) :=
+    (mqttProxyValid j = true → panicsIR_MQTTProxy (MqttSpec.ofJ j) = false) ∧
+    (validatorValid o j = true → Gen.FactsC13IR.validateIR_Validator (VSpec.ofJ j) = true) ∧
+    (cbValid o j = true → (CBLibPolicy.ofJ j).accepted = true) :=
   ⟨respAdaptorValid_implies_validateIR j, builderValid_implies_validateIR o j, rlPolicyOK_implies_validateIR o j,
-   mqttProxyValid_implies_no_panicIR j⟩
+   mqttProxyValid_implies_no_panicIR j, validatorValid_implies_validateIR o j, cbValid_implies_accepted o j⟩
 
 /-- non-vacuity: accepted records on which the translated validations compute `true` -/
 example : Gen.FactsC13IR.validateIR_ResponseAdaptor ⟨"gzip", "", "x"⟩ = true ∧
@@ -634,6 +637,51 @@ example : Gen.FactsC13IR.validateIR_ResponseAdaptor ⟨"gzip", "", "x"⟩ = true
     Gen.FactsC13IR.validateIR_Validator ⟨false, some ⟨2⟩⟩ = true ∧
     Gen.FactsC13IR.validateIR_MQTTProxy ⟨[some ⟨some ⟨"Publish"⟩, "p"⟩, some ⟨some ⟨"Connect"⟩, "q"⟩]⟩ = true := by
   decide
+
+/-! ## The judges' executable specification accepts the model (audit, cross-cutting point)
+
+Every C13 judge decides with `Spec/SpecGuards.judgeCore valid initOK nullElem obs` (`Driver/C13.lean`); the
+lemmas below connect that function to the theorems. -/
+
+/-- **spec accepts model**: if the implementation does what the model predicts for a document outside the
+null stream — accepts exactly the valid documents and does not crash — and validity excludes the modelled Init
+panics (the `valid ⇒ initOK` theorem of the kind), the judge answers agree ∧ spec. -/
+theorem judge_accepts_model (valid initOK : Bool) (h : valid = true → initOK = true) (initPhase explained : Bool) :
+    judgeCore valid initOK false ⟨valid, false, initPhase, explained⟩ = (true, true) := by
+  cases valid <;> cases initOK <;> simp [judgeCore] at h ⊢
+
+/-- instances for the objects whose `valid ⇒ initOK` is a full theorem: the expected class is `ok` or `rejected` -/
+theorem judge_accepts_model_objects (o : Oracle) (j : J) (a b : Bool) :
+    judgeCore (httpServerValid o j) (httpServerInitOK o j) false ⟨httpServerValid o j, false, a, b⟩ = (true, true) ∧
+    judgeCore (mqttProxyValid j) (mqttProxyInitOK j) false ⟨mqttProxyValid j, false, a, b⟩ = (true, true) :=
+  ⟨judge_accepts_model _ _ (valid_implies_init_ok_HTTPServer o j) a b,
+   judge_accepts_model _ _ (valid_implies_init_ok_MQTTProxy j) a b⟩
+
+/-- … and for every first-wave filter kind except RequestAdaptor (open finding) -/
+theorem judge_accepts_model_filter (o : Oracle) (j : J) (hk : j.sget "kind" ≠ "RequestAdaptor") (a b : Bool) :
+    judgeCore (filterValid o j) (filterInitOK o j) false ⟨filterValid o j, false, a, b⟩ = (true, true) :=
+  judge_accepts_model _ _ (valid_implies_init_ok_filter o j hk) a b
+
+/-- **an accepted document that crashes is always reported**: whatever the model says, `spec = false` -/
+theorem judge_flags_accepted_crash (valid initOK nullElem initPhase explained : Bool) :
+    (judgeCore valid initOK nullElem ⟨true, true, initPhase, explained⟩).2 = false := by
+  cases valid <;> cases initOK <;> cases nullElem <;> cases initPhase <;> cases explained <;> rfl
+
+/-- **converse for the guarded rows**: when a modelled Init guard fails for an accepted, valid document, the
+judge agrees only with an Init-phase crash that the guard explains (and reports it as a violation); no crash, or
+an unexplained one, is a disagreement between model and code. -/
+theorem judge_guard_converse (nullElem : Bool) (hn : nullElem = false) :
+    judgeCore true false nullElem ⟨true, false, false, false⟩ = (false, true) ∧
+    judgeCore true false nullElem ⟨true, true, true, true⟩ = (true, false) ∧
+    judgeCore true false nullElem ⟨true, true, true, false⟩ = (false, false) ∧
+    judgeCore true false nullElem ⟨true, true, false, true⟩ = (false, false) := by
+  subst hn; decide
+
+/-- rejecting a valid document or accepting an invalid one is never agreed with -/
+theorem judge_rejects_validation_mismatch (valid initOK : Bool) (o : JObs) (h : o.accepted ≠ valid) :
+    (judgeCore valid initOK false o).1 = false := by
+  obtain ⟨a, c, p, e⟩ := o
+  cases valid <;> cases a <;> simp_all [judgeCore]
 
 /-! ## The panic-site table, split by what is actually known about each site (audit repair 7) -/
 
